@@ -1,0 +1,109 @@
+//go:build verif
+
+// Contracts for package balance (C02 value conservation, C03 debits, C18 safety of coin arithmetic).
+// Comment-only file, read by /verif/govc.
+
+package balance
+
+// ---------------------------------------------------------------- ledger vocabulary
+//
+// bal(st)[k]      : the amount recorded under key k ("<address>_<currency>") of the balance store
+// balTotal(st)[c] : ghost running total of all balances of currency c (updated by every mutator
+//                   by the delta it applies to one record; "a point update changes the sum by
+//                   the point delta" is the only mathematics outside SMT, DESIGN.md 3.4)
+// balKey(a, c)    : the key the code builds for (address, currency)
+//@ model bal(*Store) array[string]int
+//@ model balTotal(*Store) array[string]int
+//@ ghost func balKey(addr bytes, cur string) string = addrStr(str(addr)) + "_" + cur
+
+// get/set: the store's typed view of its State prefix. Assumed (rests on C09's State contracts
+// and on T-SER round-tripping of Amount); everything above them is proved against these two.
+//@ assume func (*Store).get
+//@   modifies nothing
+//@   ensures amt != nil && fresh(amt)
+//@   ensures err == nil ==> big(amt) == bal(st)[str(key)]
+
+//@ assume func (*Store).set
+//@   modifies bal(st)[str(key)], vHas(st.State), vVal(st.State)
+//@   ensures err == nil ==> bal(st)[str(key)] == amt
+//@   ensures err != nil ==> bal(st)[str(key)] == old(bal(st)[str(key)])
+
+// ---------------------------------------------------------------- coin arithmetic
+
+//@ func (Coin).Plus
+//@   safety C18
+//@   requires coin.Amount != nil && value.Amount != nil && coin.Currency.Name == value.Currency.Name      // C18.coin-plus
+//@   modifies nothing
+//@   ensures result.Amount != nil && fresh(result.Amount) && big(result.Amount) == big(coin.Amount) + big(value.Amount) && result.Currency == coin.Currency   // C02.coin-arith
+
+//@ func (Coin).Minus
+//@   safety C18
+//@   requires value.Amount != nil && coin.Currency.Name == value.Currency.Name                             // C18.coin-minus
+//@   modifies nothing
+//@   ensures result0.Amount != nil && fresh(result0.Amount) && result0.Currency == coin.Currency            // C02.coin-arith
+//@   ensures coin.Amount != nil ==> big(result0.Amount) == big(coin.Amount) - big(value.Amount)             // C02.coin-arith
+//@   ensures coin.Amount == nil ==> big(result0.Amount) == 0 - big(value.Amount)                            // C02.coin-arith
+//@   ensures (err == nil) == (big(result0.Amount) >= 0)                                                     // C02.coin-arith
+
+//@ func (Coin).IsValid
+//@   modifies nothing
+//@   ensures result == (coin.Amount != nil && coin.Currency.Name != "" && big(coin.Amount) >= 0)            // C02.coin-valid
+
+//@ func (Coin).MultiplyInt64
+//@   modifies nothing
+//@   ensures coin.Amount != nil ==> result.Amount != nil && fresh(result.Amount) && big(result.Amount) == big(coin.Amount) * value && result.Currency == coin.Currency   // C02.coin-arith
+//@   ensures coin.Amount == nil ==> result.Amount != nil && big(result.Amount) == 0 && result.Currency == coin.Currency   // C02.coin-arith
+
+//@ func (Coin).DivideInt64
+//@   safety C18
+//@   requires value != 0                                                                                    // C18.coin-div
+//@   modifies nothing
+//@   ensures result.Amount != nil && fresh(result.Amount) && result.Currency == coin.Currency               // C02.coin-arith
+//@   ensures coin.Amount != nil ==> big(result.Amount) == big(coin.Amount) / value                          // C02.coin-arith
+
+//@ func (Coin).LessThanCoin
+//@   modifies nothing
+//@   ensures coin.Amount != nil && value.Amount != nil ==> result == (big(coin.Amount) < big(value.Amount)) // C02.coin-arith
+
+//@ func (Coin).LessThanEqualCoin
+//@   modifies nothing
+//@   ensures coin.Amount != nil && value.Amount != nil ==> result == (big(coin.Amount) <= big(value.Amount)) // C02.coin-arith
+
+//@ func (Currency).NewCoinFromAmount
+//@   modifies nothing
+//@   ensures result.Amount != nil && fresh(result.Amount) && big(result.Amount) == a && result.Currency == c   // C02.coin-arith
+
+// string rendering of amounts (loop over digits; no state, no panic: strings only) — assumed
+//@ assume func PrintDecimal
+//@   modifies nothing
+
+// ---------------------------------------------------------------- ledger mutators
+
+//@ func (*Store).AddToAddress
+//@   requires st != nil && coin.Amount != nil                                                               // C18.nil-amount
+//@   requires big(coin.Amount) >= 0                                                                         // C02.sign
+//@   modifies bal(st)[balKey(addr, coin.Currency.Name)], balTotal(st), vHas(st.State), vVal(st.State)
+//@   update balTotal(st) := old(balTotal(st))[coin.Currency.Name := old(balTotal(st))[coin.Currency.Name] + (bal(st)[balKey(addr, coin.Currency.Name)] - old(bal(st))[balKey(addr, coin.Currency.Name)])]
+//@   ensures err == nil ==> bal(st)[balKey(addr, coin.Currency.Name)] == old(bal(st))[balKey(addr, coin.Currency.Name)] + big(coin.Amount)   // C02.delta
+//@   ensures err == nil ==> balTotal(st)[coin.Currency.Name] == old(balTotal(st))[coin.Currency.Name] + big(coin.Amount)                     // C02.delta
+//@   ensures err != nil ==> bal(st)[balKey(addr, coin.Currency.Name)] == old(bal(st))[balKey(addr, coin.Currency.Name)] && balTotal(st)[coin.Currency.Name] == old(balTotal(st))[coin.Currency.Name]   // C02.delta
+//@   ensures forall c string :: c != coin.Currency.Name ==> balTotal(st)[c] == old(balTotal(st))[c]                                          // C02.delta
+
+//@ func (*Store).MinusFromAddress
+//@   requires st != nil && coin.Amount != nil                                                               // C18.nil-amount
+//@   requires big(coin.Amount) >= 0                                                                         // C02.sign
+//@   modifies bal(st)[balKey(addr, coin.Currency.Name)], balTotal(st), vHas(st.State), vVal(st.State)
+//@   update balTotal(st) := old(balTotal(st))[coin.Currency.Name := old(balTotal(st))[coin.Currency.Name] + (bal(st)[balKey(addr, coin.Currency.Name)] - old(bal(st))[balKey(addr, coin.Currency.Name)])]
+//@   ensures err == nil ==> bal(st)[balKey(addr, coin.Currency.Name)] == old(bal(st))[balKey(addr, coin.Currency.Name)] - big(coin.Amount)   // C02.delta
+//@   ensures err == nil ==> old(bal(st))[balKey(addr, coin.Currency.Name)] >= big(coin.Amount)                                               // C02.non-negative
+//@   ensures err == nil ==> balTotal(st)[coin.Currency.Name] == old(balTotal(st))[coin.Currency.Name] - big(coin.Amount)                     // C02.delta
+//@   ensures err != nil ==> bal(st)[balKey(addr, coin.Currency.Name)] == old(bal(st))[balKey(addr, coin.Currency.Name)] && balTotal(st)[coin.Currency.Name] == old(balTotal(st))[coin.Currency.Name]   // C02.delta
+//@   ensures forall c string :: c != coin.Currency.Name ==> balTotal(st)[c] == old(balTotal(st))[c]                                          // C02.delta
+
+//@ func (*Store).CheckBalanceFromAddress
+//@   requires st != nil && coin.Amount != nil                                                               // C18.nil-amount
+//@   modifies nothing
+//@   ensures err == nil ==> bal(st)[balKey(addr, coin.Currency.Name)] >= big(coin.Amount)                   // C02.check
+
+// currency set invariant: a currency is registered under its own name
+//@ ghost func curOK(l *CurrencySet) bool = l != nil && l.nameMap != nil && (forall n string :: has(l.nameMap, n) ==> l.nameMap[n].Name == n)
